@@ -1,6 +1,6 @@
 """C03 - offset/DST/abbreviation for an instant match the TZ data (narrow)."""
 from ..rules_shape import floor_a, const_agree
-from ..rules_tz import floor_b, parse_order
+from ..rules_tz import floor_b, parse_order, find_key
 from ..e5 import run_e5
 
 
@@ -10,5 +10,6 @@ def run(ctx, rep):
     floor_b(rep, prog)
     floor_a(ctx, rep)
     parse_order(rep, prog)
+    find_key(rep, prog)
     const_agree(rep, prog)
     run_e5(rep)
